@@ -49,8 +49,9 @@ def split_commas(toks, lo, hi):
 
 
 class Normaliser:
-    def __init__(self, bools=(), consts=None, const_prefix=None, keep_mut=False, vis="pub"):
+    def __init__(self, bools=(), consts=None, const_prefix=None, keep_mut=False, vis="pub", as_name=None):
         self.vis = vis
+        self.as_name = as_name
         self.bools = set(bools)
         self.consts = set(consts) if consts is not None else set(CONSTS)
         self.const_prefix = set(const_prefix) if const_prefix is not None else set(CONST_PREFIX)
@@ -433,6 +434,11 @@ class Normaliser:
             toks = self.const_uses(toks)
         elif kind == "fn":
             toks = self.strip_quals(toks, "fn")
+            if self.as_name:
+                # N15: a trait-impl method is placed in an inherent impl under a mangled name
+                k = next(i for i, t in enumerate(toks) if t.text == "fn")
+                toks[k + 1] = Tok("id", self.as_name, toks[k + 1].ws, toks[k + 1].line)
+                self.note("N15-rename")
             toks = self.mut_params(toks)
             toks = self.destructuring(toks)
             toks = self.hints(toks)
